@@ -20,7 +20,8 @@ pub struct FnCase {
     pub tick_spacing: u16,
     pub lower: i32,
     pub upper: i32,
-    /// 0 on lower bound, 1 on upper bound, 2 shifted at lower, 3 shifted at upper, 4 inside, 5 anywhere
+    /// 0 on lower bound, 1 on upper bound, 2 shifted at lower, 3 shifted at upper, 4 inside, 5 anywhere,
+    /// 6 strictly inside the tick of the upper bound, 7 just below the lower bound, 8 strictly inside the tick of the lower bound
     pub state: u8,
     #[serde(with = "crate::ser::u128s")]
     pub price_seed: u128,
@@ -58,7 +59,15 @@ pub fn largest_liquidity(p: u128, pl: u128, pu: u128, ma: u64, mb: u64) -> BigUi
 pub fn check_fn(c: &FnCase, l: &mut Local) -> Result<(), String> {
     let (lo, hi) = (c.lower, c.upper);
     let (pl, pu) = (sqrt_price_from_tick_index(lo), sqrt_price_from_tick_index(hi));
-    let (tick, p) = match c.state % 6 {
+    let within = |t: i32| -> u128 {
+        // a price strictly inside tick t (between p(t) and p(t+1)), from the price seed
+        let (a, b2) = (sqrt_price_from_tick_index(t), sqrt_price_from_tick_index((t + 1).min(MAX_TICK)));
+        if b2 > a + 1 { a + 1 + c.price_seed % (b2 - a - 1) } else { a }
+    };
+    let (tick, p) = match c.state % 9 {
+        6 => (hi, within(hi)),
+        7 => (lo - 1, pl - 1),
+        8 => (lo, within(lo)),
         0 => (lo, pl),
         1 => (hi, pu),
         2 => (lo - 1, pl),
@@ -75,7 +84,7 @@ pub fn check_fn(c: &FnCase, l: &mut Local) -> Result<(), String> {
     if tick < MIN_TICK {
         return Ok(());
     }
-    let shifted = matches!(c.state % 6, 2 | 3);
+    let shifted = matches!(c.state % 9, 2 | 3);
     let liq = c.liquidity;
     let mut pos = Position::default();
     pos.tick_lower_index = lo;
@@ -155,7 +164,7 @@ fn fn_case() -> BoxedStrategy<FnCase> {
         .prop_flat_map(|ts| {
             let tsi = ts as i32;
             let maxk = MAX_TICK / tsi;
-            (Just(ts), -maxk..=maxk, prop_oneof![2 => 1i32..=200, 1 => 1i32..=(2 * maxk)], 0u8..6, any::<u128>(), gen::bits_u128(110), gen::bits_u64(64), gen::bits_u64(64))
+            (Just(ts), -maxk..=maxk, prop_oneof![2 => 1i32..=200, 1 => 1i32..=(2 * maxk)], 0u8..9, any::<u128>(), gen::bits_u128(110), gen::bits_u64(64), gen::bits_u64(64))
         })
         .prop_map(|(ts, lo_k, w, state, price_seed, liquidity, max_a, max_b)| {
             let tsi = ts as i32;
